@@ -16,10 +16,14 @@ import (
 	"github.com/celestiaorg/celestia-app/v9/pkg/appconsts"
 	"github.com/celestiaorg/go-square/v4/inclusion"
 	libshare "github.com/celestiaorg/go-square/v4/share"
+	"github.com/celestiaorg/nmt"
 	coremerkle "github.com/cometbft/cometbft/crypto/merkle"
 	tmbytes "github.com/cometbft/cometbft/libs/bytes"
 	tmproto "github.com/cometbft/cometbft/proto/tendermint/types"
 	coretypes "github.com/cometbft/cometbft/types"
+
+	"github.com/celestiaorg/celestia-node/share/shwap"
+	shwappb "github.com/celestiaorg/celestia-node/share/shwap/pb"
 )
 
 type vRun struct{ From, To int } // maximal same-namespace run [From,To) of the ODS
@@ -517,6 +521,7 @@ func (c *vC12) checkRanges(b *vBlock, otherRoot []byte, owns func(key string) bo
 	}
 	var donor *GetRangeResult
 	seenClass := map[string]bool{}
+	foreignDone := map[string]bool{} // first range of every shape of THIS block gets the foreign containers
 	for _, run := range b.runs() {
 		ranges, full := b.rangesOf(run)
 		if full {
@@ -574,6 +579,10 @@ func (c *vC12) checkRanges(b *vBlock, otherRoot []byte, owns func(key string) bo
 			}
 			cl := b.rangeKey(s, e)
 			c.st.hist("range_shapes", b.rangeClass(s, e))
+			if fk := b.rangeClass(s, e); !foreignDone[fk] {
+				foreignDone[fk] = true
+				c.checkForeignContainers(b, g, s, e)
+			}
 			if seenClass[cl] || !owns(cl) {
 				if donor == nil {
 					donor = res
@@ -650,5 +659,184 @@ func (c *vC12) checkRanges(b *vBlock, otherRoot []byte, owns func(key string) bo
 			}
 			donor = res
 		}
+	}
+}
+
+// checkForeignContainers feeds newGetRangeResult (the proof construction of share.GetRange) range
+// containers that a remote peer could send and that the node ACCEPTS (protobuf round trip, then
+// RangeNamespaceData.VerifyInclusion against the row roots, as the getters do) but that are not the
+// ones the local accessors build: a spare first-row / last-row proof where the accessor leaves the
+// field empty - the row's own correct proof, the proof of the same columns in a neighbouring row,
+// or the own proof with one node hash altered (the verifier compares a spare last-row proof of a
+// one-row range with nothing). Whenever the container is accepted, the result built from it must
+// carry exactly ODS[s:e) and verify against the data root for exactly that position.
+func (c *vC12) checkForeignContainers(b *vBlock, g *vGetter, s, e int) {
+	ctx := context.Background()
+	from, err1 := shwap.SampleCoordsFrom1DIndex(s, b.W)
+	to, err2 := shwap.SampleCoordsFrom1DIndex(e-1, b.W)
+	if err1 != nil || err2 != nil {
+		return
+	}
+	rowShares := func(r int) []libshare.Share {
+		sh, _ := libshare.FromBytes(b.EDS.Row(uint(r)))
+		return sh
+	}
+	alter := func(p *nmt.Proof) *nmt.Proof {
+		nodes := vCloneBB(p.Nodes())
+		if len(nodes) == 0 {
+			return nil
+		}
+		nodes[len(nodes)-1][len(nodes[len(nodes)-1])-1] ^= 1 // the hash part; the namespace bounds stay
+		return vMkNmt(p.Start(), p.End(), nodes, nil, p.IsMaxNamespaceIDIgnored())
+	}
+	// candidate spare proofs for the columns [c0,c1) of the range's row r
+	spares := func(r, c0, c1 int) map[string]*nmt.Proof {
+		out := map[string]*nmt.Proof{}
+		if own, err := shwap.GenerateSharesProofs(r, c0, c1, b.W, rowShares(r)); err == nil {
+			out["own-row"] = own
+			if a := alter(own); a != nil {
+				out["own-row-node-altered"] = a
+			}
+		}
+		for _, nr := range []int{r + 1} {
+			if nr >= 0 && nr < b.W {
+				if p, err := shwap.GenerateSharesProofs(nr, c0, c1, b.W, rowShares(nr)); err == nil {
+					out[fmt.Sprintf("neighbour-row%+d", nr-r)] = p
+				}
+			}
+		}
+		return out
+	}
+	type variant struct {
+		name        string
+		first, last *nmt.Proof
+		setF, setL  bool
+	}
+	var vars []variant
+	honest, err := g.GetRangeNamespaceData(ctx, b.Hdr, s, e)
+	if err != nil {
+		return
+	}
+	lastC0 := 0
+	if from.Row == to.Row {
+		lastC0 = from.Col
+	}
+	firstC1 := b.W
+	if from.Row == to.Row {
+		firstC1 = to.Col + 1
+	}
+	var names []string
+	if honest.LastIncompleteRowProof == nil {
+		sp := spares(to.Row, lastC0, to.Col+1)
+		for n := range sp {
+			names = append(names, n)
+		}
+		sort.Strings(names)
+		for _, n := range names {
+			vars = append(vars, variant{name: "spare-last-row-proof/" + n, last: sp[n], setL: true})
+		}
+	}
+	if honest.FirstIncompleteRowProof == nil {
+		sp := spares(from.Row, from.Col, firstC1)
+		names = names[:0]
+		for n := range sp {
+			names = append(names, n)
+		}
+		sort.Strings(names)
+		for _, n := range names {
+			vars = append(vars, variant{name: "spare-first-row-proof/" + n, first: sp[n], setF: true})
+			if honest.LastIncompleteRowProof == nil && n == "own-row" {
+				if l, err := shwap.GenerateSharesProofs(to.Row, lastC0, to.Col+1, b.W, rowShares(to.Row)); err == nil {
+					vars = append(vars, variant{name: "spare-both-row-proofs/own-row", first: sp[n], last: l, setF: true, setL: true})
+				}
+			}
+		}
+	}
+	rp := func(op string) any {
+		return map[string]any{"check": "C12/range", "spec": b.Spec.String(), "op": op, "range": []int{s, e}, "layout": b.layout()}
+	}
+	for _, v := range vars {
+		cont, err := g.GetRangeNamespaceData(ctx, b.Hdr, s, e) // a fresh container (the constructor trims rows in place)
+		if err != nil {
+			return
+		}
+		if v.setF {
+			cont.FirstIncompleteRowProof = v.first
+		}
+		if v.setL {
+			cont.LastIncompleteRowProof = v.last
+		}
+		// the wire: protobuf round trip
+		raw, err := cont.ToProto().Marshal()
+		if err != nil {
+			c.st.out("foreign-container:marshal-error")
+			continue
+		}
+		var pbc shwappb.RangeNamespaceData
+		if err := pbc.Unmarshal(raw); err != nil {
+			c.st.out("foreign-container:decode-error")
+			continue
+		}
+		var recv shwap.RangeNamespaceData
+		var derr, verr error
+		if pn := vCatch(func() {
+			recv, derr = shwap.RangeNamespaceDataFromProto(&pbc)
+			if derr == nil {
+				verr = recv.VerifyInclusion(from, to, b.W, b.Roots.RowRoots[from.Row:to.Row+1])
+			}
+		}); pn != "" {
+			c.st.out("foreign-container:verify-panic")
+			c.sink("C12/RangeNamespaceData.VerifyInclusion/"+vPanicKind(pn), fmt.Sprintf("verifying a container with %s for [%d,%d) panicked: %s; block %q", v.name, s, e, pn, b.Spec), rp(v.name))
+			continue
+		}
+		if !c.caseDone(newVFPs("foreign-container", b.FP, s, e, v.name), true) {
+			continue
+		}
+		if derr != nil || verr != nil {
+			c.st.out("foreign-container:refused")
+			continue
+		}
+		c.st.out("foreign-container:accepted")
+		c.st.hist("foreign_containers_accepted", strings.SplitN(v.name, "/", 2)[0]+"/"+map[bool]string{true: "one-row", false: "multi-row"}[from.Row == to.Row])
+		var res *GetRangeResult
+		var rerr error
+		if pn := vCatch(func() { res, rerr = newGetRangeResult(s, e, &recv, b.Hdr.DAH) }); pn != "" {
+			c.sink("C12/newGetRangeResult/"+vPanicKind(pn), fmt.Sprintf("building the result for [%d,%d) from an accepted container with %s panicked: %s; block %q", s, e, v.name, pn, b.Spec), rp(v.name))
+			continue
+		}
+		why := ""
+		switch {
+		case rerr != nil || res == nil:
+			why = fmt.Sprintf("no result: %v", rerr)
+		default:
+			same := len(res.Shares) == e-s
+			for i := 0; same && i < e-s; i++ {
+				same = bytes.Equal(res.Shares[i].ToBytes(), b.ODS[s+i].ToBytes())
+			}
+			var verr error
+			pn := vCatch(func() { verr = vCloneRange(res).Verify(b.DataRoot) })
+			switch {
+			case !same:
+				why = "the shares are not ODS[start:end)"
+			case pn != "":
+				why = "Verify panicked: " + pn
+			case verr != nil:
+				why = "the result does not verify against the data root: " + verr.Error()
+			default:
+				if ok, w := vRangeClaimTrue(b, res, b.DataRoot); !ok {
+					why = "the result verifies but " + w
+				} else if int(res.Proof.ShareProofs[0].Start) != from.Col || !bytes.Equal(res.Proof.RowProof.RowRoots[0], b.Roots.RowRoots[from.Row]) {
+					why = "the result proves another position"
+				}
+			}
+		}
+		if why != "" {
+			c.st.out("foreign-container:bad-result")
+			c.sink("C12/newGetRangeResult/accepted-container-bad-result", fmt.Sprintf("a range container for [%d,%d) with %s passes the protobuf round trip and VerifyInclusion, but the GetRangeResult built from it is wrong: %s; block %q layout %s",
+				s, e, v.name, why, b.Spec, b.layout()), rp(v.name))
+			continue
+		}
+		c.st.out("foreign-container:good-result")
+		c.sample("range/foreign-container", map[string]any{"block": b.Spec.String(), "range": []int{s, e}, "container": v.name, "accepted": true, "result": "verifies, shares == ODS[start:end)"})
 	}
 }
